@@ -149,6 +149,16 @@ class TS:
                 dn = defs[d]
                 if isinstance(dn, ast.Assign):
                     sts.append(self.elem_state(dn.value, dn))
+            # a container filled piece by piece (`d = {}` ... `d[k] = v`, `l.append(v)`): its elements are what is stored into it anywhere in the function
+            for n in walk_local(self.func):
+                if isinstance(n, ast.Assign) and any(isinstance(t, ast.Subscript) and isinstance(t.value, ast.Name) and t.value.id == e.id for t in n.targets):
+                    sts.append(self.state(n.value, n))
+                elif isinstance(n, ast.Expr) and isinstance(n.value, ast.Call) and isinstance(n.value.func, ast.Attribute) \
+                        and isinstance(n.value.func.value, ast.Name) and n.value.func.value.id == e.id and n.value.args:
+                    if n.value.func.attr in ("append", "add"):
+                        sts.append(self.state(n.value.args[0], n))
+                    elif n.value.func.attr == "setdefault" and len(n.value.args) == 2:
+                        sts.append(self.state(n.value.args[1], n))
             return join(sts)
         if isinstance(e, ast.DictComp):
             return self.state(e.value, e)
@@ -517,6 +527,10 @@ def run(repo, res):
 
 
 MUTANTS = [
+    dict(name="R1 per-structure evidence filled piece by piece from the raw coverage", module="minor", expect="C15.R1",
+         old="    covs = {\n        c: quality_cov.filtered(functools.partial(default_filter_fn, c))\n        for c in cn_sols\n    }\n", new="    covs = {}\n    for c in cn_sols:\n        covs[c] = coverage.filtered(functools.partial(default_filter_fn, c))\n"),
+    dict(name="benign: per-structure evidence filled piece by piece (whole-function rewrite RQ_4 shape)", module="minor", kind="benign",
+         old="    covs = {\n        c: quality_cov.filtered(functools.partial(default_filter_fn, c))\n        for c in cn_sols\n    }\n", new="    covs = {}\n    for c in cn_sols:\n        covs[c] = quality_cov.filtered(functools.partial(default_filter_fn, c))\n"),
     dict(name="R3 novel variants of any major solution bypass the minor-stage thresholds (seeded C15_c3 shape)", module="minor", expect="C15.R3",
          edits=[("    mutations: Set[Mutation] = set()\n", "    mutations: Set[Mutation] = set()\n    vetted_: Set[Mutation] = set()\n"),
                 ("        mutations |= set(major_sol.added)\n", "        mutations |= set(major_sol.added)\n        vetted_ |= set(major_sol.added)\n"),
